@@ -57,6 +57,12 @@ class LoggerVal(object):
     pass
 
 
+class StarSym(object):
+    """*args where args is a symbolic-length list"""
+    def __init__(self, lst):
+        self.lst = lst
+
+
 LOGGER = LoggerVal()
 _LOG_METHODS = ('debug', 'info', 'warning', 'error', 'critical', 'exception', 'warn', 'log')
 
@@ -390,6 +396,10 @@ class Interp(object):
         if isinstance(v, (Func, BoundMethod, Builtin, BuiltinMethod, ClassInfo, Partial, ModuleVal,
                           BuiltinModule, TypeMarker, SpecFn, LoggerVal)):
             return True
+        if isinstance(v, V.AbsVal):
+            if 'truth' in v.attrs:
+                return v.attrs['truth'](self, v)
+            return True
         if isinstance(v, CharSet):
             raise EngineError('truth of a CharSet')
         if isinstance(v, Opaque):
@@ -431,6 +441,13 @@ class Interp(object):
             if set(map(_hkey, a.items)) != set(map(_hkey, b.items)):
                 return False
             return z_and(*[self.equal_term(a.items[k], b.items[k]) for k in a.items])
+        if isinstance(a, V.AbsVal) or isinstance(b, V.AbsVal):
+            if isinstance(a, V.AbsVal) and isinstance(b, V.AbsVal):
+                return a.term == b.term
+            o, x = (a, b) if isinstance(a, V.AbsVal) else (b, a)
+            if hasattr(o, 'eq_other'):
+                return o.eq_other(self, x)
+            return False
         if isinstance(a, Obj) and isinstance(b, Obj):
             eq = self.class_lookup(a.cls, '__eq__')
             if eq is not None and not eq[0].builtin:
@@ -474,9 +491,13 @@ class Interp(object):
         if isinstance(cont, PyList):
             if cont.items is not None:
                 return z_or(*[self.equal_term(item, x) for x in cont.items])
-            if is_int(item):
-                k = self.ctx.fresh_int('ink')
-                raise EngineError('membership in symbolic list')
+            code = cont.codec.encode(self, item) if cont.codec is not None else item
+            if code is None and cont.codec is not None:
+                return False       # a value of another kind (e.g. None) is not an element
+            if is_int(code):
+                from .smt import forall_range
+                return z_not(forall_range(self.ctx, 0, cont.length, lambda j: cont.arr[j] != zint(code), 'inl'))
+            raise EngineError('membership in symbolic list')
         if isinstance(cont, PyDict):
             return z_or(*[self.equal_term(item, k) for k in cont.items])
         if isinstance(cont, PySet):
@@ -485,6 +506,8 @@ class Interp(object):
             return z_or(*[self.equal_term(item, k) for k in cont])
         if isinstance(cont, Obj) and self.class_lookup(cont.cls, '__contains__'):
             return self.truth_term(self.call_method(cont, '__contains__', [item], {}))
+        if hasattr(cont, 'pyvc_contains'):
+            return cont.pyvc_contains(self, item)
         raise EngineError('membership in %r' % (cont,))
 
     def compare(self, op, a, b):
@@ -532,6 +555,10 @@ class Interp(object):
         if isinstance(a, z3.BoolRef) or isinstance(b, z3.BoolRef):
             if is_boolv(a) and is_boolv(b):
                 return z_eq(a, b)
+            return False
+        if isinstance(a, V.AbsVal) and isinstance(b, V.AbsVal):
+            return a.term == b.term
+        if isinstance(a, V.AbsVal) or isinstance(b, V.AbsVal):
             return False
         if isinstance(a, (Obj, PyList, PyDict, PySet, ClassInfo, Func, TypeMarker)) or \
                 isinstance(b, (Obj, PyList, PyDict, PySet, ClassInfo, Func, TypeMarker)):
@@ -754,6 +781,11 @@ class Interp(object):
         if isinstance(a, PyList) and isinstance(b, PyList) and isinstance(op, ast.Add):
             if a.items is not None and b.items is not None:
                 return PyList(list(a.items) + list(b.items))
+            if a.items is not None and b.items is None:
+                r = PyList(None, b.length, b.arr, b.tag, b.codec)
+                for x in reversed(a.items):
+                    self.B.sym_list_method(self, 'insert', r, [0, x], {}, None)
+                return r
             raise EngineError('symbolic list concatenation')
         if isinstance(a, PyList) and is_int(b) and isinstance(op, ast.Mult) and isinstance(b, int) \
                 and a.items is not None:
@@ -800,6 +832,12 @@ class Interp(object):
         if isinstance(v, (tuple, PyList)):
             items = v if isinstance(v, tuple) else v.items
             if items is None:
+                if hi is None and isinstance(lo, int) and lo >= 0:
+                    from .smt import forall_range
+                    n2 = simp(z3.If(v.length >= lo, v.length - lo, 0))
+                    arr2 = z3.Array('slice!%d' % self.ctx.next_id(), z3.IntSort(), z3.IntSort())
+                    self.ctx.assume(forall_range(self.ctx, 0, n2, lambda j: arr2[j] == v.arr[j + lo], 'sl'))
+                    return PyList(None, n2, arr2, v.tag, v.codec)
                 raise EngineError('slice of symbolic list')
             if (lo is None or isinstance(lo, int)) and (hi is None or isinstance(hi, int)):
                 r = items[lo:hi]
@@ -878,6 +916,8 @@ class Interp(object):
             return Opaque('index of opaque')
         if isinstance(v, CharSet) and v.valfn is not None:
             return v.valfn(self, idx)
+        if hasattr(v, 'pyvc_index'):
+            return v.pyvc_index(self, idx, src)
         raise EngineError('subscript of %r' % (v,))
 
     def dict_get(self, d, key, src=''):
@@ -1098,7 +1138,11 @@ class Interp(object):
         args = []
         for a in node.args:
             if isinstance(a, ast.Starred):
-                args.extend(self.iter_values(self.eval(a.value, frame)))
+                sv = self.eval(a.value, frame)
+                if isinstance(sv, PyList) and sv.items is None:
+                    args.append(StarSym(sv))      # only library models know what to do with it
+                else:
+                    args.extend(self.iter_values(sv))
             else:
                 args.append(self.eval(a, frame))
         kwargs = {}
@@ -1121,6 +1165,8 @@ class Interp(object):
         return self.call(fv, args, kwargs, node)
 
     def call(self, fv, args, kwargs, node=None):
+        if any(isinstance(a, StarSym) for a in args) and not isinstance(fv, Builtin):
+            raise EngineError('*args of a symbolic-length list passed to %r' % (fv,))
         if isinstance(fv, Func):
             return self.call_function(fv, args, kwargs, node)
         if isinstance(fv, BoundMethod):
@@ -1439,6 +1485,18 @@ class Interp(object):
 
     def exec_Delete(self, node, frame):
         for t in node.targets:
+            if isinstance(t, ast.Subscript) and isinstance(t.slice, ast.Slice) and t.slice.lower is None \
+                    and t.slice.upper is None and t.slice.step is None:
+                c = self.eval(t.value, frame)
+                if isinstance(c, PyList):
+                    if self.heap_log is not None:
+                        self.heap_log.append((c, '[]'))
+                    if c.items is not None:
+                        del c.items[:]
+                    else:
+                        c.length = 0
+                    continue
+                raise EngineError('del x[:] on %r' % (c,))
             if isinstance(t, ast.Subscript):
                 c = self.eval(t.value, frame)
                 k = self.eval(t.slice, frame)
@@ -1557,6 +1615,11 @@ class Interp(object):
             raise EngineError('symbolic list store')
         if isinstance(c, Obj) and self.class_lookup(c.cls, '__setitem__'):
             self.call_method(c, '__setitem__', [k, v], {})
+            return
+        if hasattr(c, 'pyvc_store'):
+            c.pyvc_store(self, k, v)
+            if self.heap_log is not None:
+                self.heap_log.append((c, '[]'))
             return
         if c is None:
             self.raise_builtin('TypeError', 'wd:none[store %s]' % _src(node))
